@@ -1,5 +1,356 @@
+// Concurrent member deaths / stop-vs-crash on the real application code.
+// A lib.VerifPoint hook parks the FIRST goroutine that reaches a chosen yield point of
+// node/application.go until the rest of the scenario has run to its end (or a bound expires),
+// which forces the interleavings the sequential histories cannot reach. The verdict uses only
+// timing-independent end-state facts (Go monitor).
 package main
 
-import "verifharness/util"
+import (
+	"fmt"
+	"sync"
+	"sync/atomic"
+	"time"
 
-func mainConc(out *util.Out, n int, replay string, known []string) {}
+	"ergo.services/ergo/gen"
+	"ergo.services/ergo/lib"
+	"verifharness/util"
+)
+
+type ConcCase struct {
+	Kind  string   `json:"kind"` // deaths | stopcrash | stress | startrace
+	Mode  int      `json:"mode"`
+	N     int      `json:"n"`
+	R     []int    `json:"r"`     // reason of the i-th dying member (member i)
+	Park  string   `json:"park"`  // yield point at which the first arriving goroutine is held ("" = none)
+	Force bool     `json:"force"` // stopcrash: ApplicationStopForce instead of ApplicationStop
+	Tags  []string `json:"tags"`
+}
+
+type ConcObs struct {
+	Terms   []int `json:"terms"`   // reasons given to ApplicationBehavior.Terminate
+	LiveAt  []int `json:"liveat"`  // members still registered when it ran
+	State   int   `json:"state"`   // at the end
+	Live    int   `json:"live"`    // members alive at the end
+	MTerms  int   `json:"mterms"`  // member Terminate callbacks that ran
+	StopRet int   `json:"stopret"` // -1: no stop call
+	StopLive int  `json:"stoplive"` // members alive when the stop call returned
+	Parked  bool  `json:"parked"`
+}
+
+var memberTerms atomic.Int64
+
+func (m *member) Terminate(reason error) { memberTerms.Add(1) }
+
+type parker struct {
+	label   string
+	taken   atomic.Bool
+	release chan struct{}
+	once    sync.Once
+}
+
+func (p *parker) open() { p.once.Do(func() { close(p.release) }) }
+
+func installParker(label string, bound time.Duration) *parker {
+	p := &parker{label: label, release: make(chan struct{})}
+	if label == "" {
+		return p
+	}
+	h := func(l string, obj any) {
+		if l != p.label {
+			return
+		}
+		if p.taken.CompareAndSwap(false, true) {
+			select {
+			case <-p.release:
+			case <-time.After(bound):
+			}
+		}
+	}
+	lib.VerifHook.Store(&h)
+	return p
+}
+
+func uninstallHook() { lib.VerifHook.Store(nil) }
+
+func runConc(node gen.Node, c ConcCase) ConcObs {
+	spec := AppSpec{Mode: c.Mode, N: c.N, Deps: []int{}, Kids: make([]int, c.N)}
+	w := newWorld(node, []AppSpec{spec})
+	a := w.apps[0]
+	ob := ConcObs{StopRet: -1}
+	if _, err := node.ApplicationLoad(a); err != nil {
+		panic(err)
+	}
+	if err := node.ApplicationStart(a.name, gen.ApplicationOptions{}); err != nil {
+		panic(err)
+	}
+	time.Sleep(300 * time.Microsecond)
+	w.takeEvents()
+	memberTerms.Store(0)
+	a.mu.Lock()
+	pids := append([]gen.PID{}, a.pids...)
+	a.mu.Unlock()
+
+	p := installParker(c.Park, 40*time.Millisecond)
+	die := func(i int) {
+		if c.R[i] == rKill {
+			node.Kill(pids[i])
+		} else {
+			node.Send(pids[i], dieMsg{how: c.R[i]})
+		}
+	}
+	var wg sync.WaitGroup
+	switch c.Kind {
+	case "deaths", "stress":
+		// member 0 first (its goroutine is the one that gets parked), the others while it is held
+		wg.Add(1)
+		go func() { defer wg.Done(); die(0) }()
+		if c.Park != "" {
+			for k := 0; k < 200 && !p.taken.Load(); k++ {
+				sleepShort()
+			}
+		}
+		for i := 1; i < len(c.R); i++ {
+			wg.Add(1)
+			go func(i int) { defer wg.Done(); die(i) }(i)
+		}
+		if c.Kind == "stress" {
+			wg.Add(1)
+			go func() {
+				defer wg.Done()
+				ob.StopRet = retCode(node.ApplicationStop(a.name))
+				ob.StopLive = len(a.liveMembers())
+			}()
+		}
+	case "stopcrash":
+		// the stop call is the one that gets parked; a member crashes meanwhile
+		wg.Add(1)
+		go func() {
+			defer wg.Done()
+			if c.Force {
+				ob.StopRet = retCode(node.ApplicationStopForce(a.name))
+			} else {
+				ob.StopRet = retCode(node.ApplicationStop(a.name))
+			}
+			ob.StopLive = len(a.liveMembers())
+		}()
+		if c.Park != "" {
+			for k := 0; k < 200 && !p.taken.Load(); k++ {
+				sleepShort()
+			}
+		}
+		for i := 0; i < len(c.R); i++ {
+			die(i)
+		}
+	}
+	ob.Parked = p.taken.Load()
+	// let everything that can finish without the parked goroutine finish, then release it
+	for k := 0; k < 40; k++ {
+		sleepShort()
+	}
+	p.open()
+	wg.Wait()
+	// quiescence: bounded wait for the expected end state (all dead, loaded), then a stability window
+	must := mustStop(c)
+	for k := 0; k < 3000; k++ {
+		info, err := node.ApplicationInfo(a.name)
+		if must && err == nil && info.State == gen.ApplicationStateLoaded && len(a.liveMembers()) == 0 && int(memberTerms.Load()) >= c.N {
+			break
+		}
+		if !must && len(a.liveMembers()) == c.N-len(c.R) && int(memberTerms.Load()) >= len(c.R) {
+			break
+		}
+		sleepShort()
+	}
+	for k := 0; k < 5; k++ {
+		sleepShort()
+	}
+	uninstallHook()
+	for _, e := range w.takeEvents() {
+		if e.K == 2 {
+			ob.Terms = append(ob.Terms, e.M)
+			ob.LiveAt = append(ob.LiveAt, e.L)
+		}
+	}
+	if info, err := node.ApplicationInfo(a.name); err == nil {
+		ob.State = int(info.State)
+	}
+	ob.Live = len(a.liveMembers())
+	ob.MTerms = int(memberTerms.Load())
+	// clean up whatever is left
+	node.ApplicationStopForce(a.name)
+	for k := 0; k < 2000; k++ {
+		if node.ApplicationUnload(a.name) != gen.ErrApplicationRunning {
+			break
+		}
+		sleepShort()
+	}
+	return ob
+}
+
+// does the application have to stop at all?
+func mustStop(c ConcCase) bool {
+	must := c.Kind == "stopcrash" || c.Kind == "stress" || len(c.R) >= c.N
+	for _, r := range c.R {
+		if c.Mode == 3 || (c.Mode == 2 && abnormal(r)) {
+			must = true
+		}
+	}
+	return must
+}
+
+// the property on the end state
+func judgeConc(c ConcCase, o ConcObs) []string {
+	var bad []string
+	must := mustStop(c)
+	if must {
+		if len(o.Terms) != 1 {
+			bad = append(bad, fmt.Sprintf("Terminate callback ran %d times (reasons %v), expected exactly once", len(o.Terms), o.Terms))
+		}
+		if o.State != 1 || o.Live != 0 {
+			bad = append(bad, fmt.Sprintf("end state %d with %d live members, expected loaded (1) and none", o.State, o.Live))
+		}
+		if o.MTerms != c.N {
+			bad = append(bad, fmt.Sprintf("%d of %d members ran their own Terminate callback (a goroutine died in application.terminate)", o.MTerms, c.N))
+		}
+	} else {
+		if len(o.Terms) != 0 || o.State != 2 || o.Live != c.N-len(c.R) {
+			bad = append(bad, fmt.Sprintf("application must keep running: state %d live %d terminate callbacks %v", o.State, o.Live, o.Terms))
+		}
+	}
+	for _, l := range o.LiveAt {
+		if l != 0 {
+			bad = append(bad, fmt.Sprintf("Terminate callback ran while %d members were still registered", l))
+		}
+	}
+	if o.StopRet == retOK && o.StopLive != 0 {
+		bad = append(bad, fmt.Sprintf("stop returned success while %d members were alive", o.StopLive))
+	}
+	return bad
+}
+
+// the reason handed to the Terminate callback must be one of the causes
+func judgeCause(c ConcCase, o ConcObs) string {
+	if len(o.Terms) != 1 {
+		return ""
+	}
+	got := o.Terms[0]
+	allowed := map[int]bool{}
+	if c.Kind == "stopcrash" || c.Kind == "stress" {
+		if c.Force {
+			allowed[rKill] = true
+		} else {
+			allowed[rShutdown] = true
+		}
+	}
+	rule := false
+	for _, r := range c.R {
+		if c.Mode == 3 || (c.Mode == 2 && abnormal(r)) {
+			allowed[r] = true
+			rule = true
+		}
+	}
+	if !rule && len(allowed) == 0 {
+		allowed[rNormal] = true
+	}
+	if c.Kind != "deaths" && !rule {
+		// every member may have gone by itself before the stop call got anywhere
+		allowed[rNormal] = true
+	}
+	if allowed[got] {
+		return ""
+	}
+	return fmt.Sprintf("Terminate callback got reason %d, the causes are %v", got, keys(allowed))
+}
+
+func keys(m map[int]bool) []int {
+	r := []int{}
+	for k := range m {
+		r = append(r, k)
+	}
+	return sortedInts(r)
+}
+
+var termLabels = []string{"app.term.mode", "app.term.stopping", "app.term.reason", "app.term.tell", "app.term.len", "app.term.default", "app.term.loaded", "app.term.close", "app.term.cb"}
+var stopLabels = []string{"app.stop.mode", "app.stop.reason", "app.stop.tell", "app.stop.wait"}
+
+func concCorpus() []ConcCase {
+	var l []ConcCase
+	// every yield point of terminate x every mode, two concurrent deaths out of two / three members
+	for _, lab := range termLabels {
+		for mode := 1; mode <= 3; mode++ {
+			l = append(l, ConcCase{Kind: "deaths", Mode: mode, N: 2, R: []int{4, 3}, Park: lab})
+			l = append(l, ConcCase{Kind: "deaths", Mode: mode, N: 3, R: []int{0, 4}, Park: lab})
+			l = append(l, ConcCase{Kind: "deaths", Mode: mode, N: 2, R: []int{1, 0}, Park: lab})
+		}
+	}
+	for _, lab := range stopLabels {
+		for mode := 1; mode <= 3; mode++ {
+			l = append(l, ConcCase{Kind: "stopcrash", Mode: mode, N: 2, R: []int{4}, Park: lab})
+			l = append(l, ConcCase{Kind: "stopcrash", Mode: mode, N: 2, R: []int{4, 0}, Park: lab})
+			l = append(l, ConcCase{Kind: "stopcrash", Mode: mode, N: 3, R: []int{2}, Park: lab, Force: true})
+		}
+	}
+	return l
+}
+
+func mainConc(out *util.Out, n int, replay string, known []string) {
+	node := startNode()
+	defer node.StopForce()
+	var cases []ConcCase
+	if replay != "" {
+		var c ConcCase
+		loadReplay(replay, &c)
+		cases = []ConcCase{c}
+	} else {
+		cases = concCorpus()
+		r := util.Rng(23)
+		for i := 0; i < n; i++ {
+			c := ConcCase{Mode: 1 + r.Intn(3), N: 1 + r.Intn(4)}
+			nd := 1 + r.Intn(c.N)
+			for k := 0; k < nd; k++ {
+				c.R = append(c.R, []int{0, 1, 2, 3, 4}[r.Intn(5)])
+			}
+			switch r.Intn(3) {
+			case 0:
+				c.Kind = "stress"
+			case 1:
+				c.Kind, c.Park = "deaths", termLabels[r.Intn(len(termLabels))]
+				if r.Intn(4) == 0 {
+					c.Park = ""
+				}
+			default:
+				c.Kind, c.Park, c.Force = "stopcrash", stopLabels[r.Intn(len(stopLabels))], r.Intn(3) == 0
+			}
+			cases = append(cases, c)
+		}
+	}
+	causeKnown := hasTag(known, "cause-race")
+	for _, c := range cases {
+		if c.Tags == nil {
+			c.Tags = []string{}
+		}
+		o := runConc(node, c)
+		idx := out.Add("", struct {
+			ConcCase
+			Obs ConcObs `json:"obs"`
+		}{c, o})
+		out.Stats["runs"]++
+		out.Stats["kind:"+c.Kind]++
+		out.Stats[fmt.Sprintf("mode:%d", c.Mode)]++
+		if o.Parked {
+			out.Stats["parked"]++
+		}
+		if len(o.Terms) == 1 {
+			out.Stats[fmt.Sprintf("terminate-reason:%d", o.Terms[0])]++
+		}
+		for _, b := range judgeConc(c, o) {
+			out.Monitor = append(out.Monitor, util.MonitorFail{Case: idx, What: fmt.Sprintf("%s mode %d n %d reasons %v park %q: %s", c.Kind, c.Mode, c.N, c.R, c.Park, b), Tags: c.Tags})
+		}
+		if b := judgeCause(c, o); b != "" {
+			out.Stats["cause-race-seen"]++
+			if causeKnown {
+				out.Monitor = append(out.Monitor, util.MonitorFail{Case: idx, What: fmt.Sprintf("%s mode %d n %d reasons %v park %q: %s", c.Kind, c.Mode, c.N, c.R, c.Park, b), Tags: append(append([]string{}, c.Tags...), "cause-race")})
+			}
+		}
+	}
+}
